@@ -109,6 +109,8 @@ pub struct Device {
     pub systime_script: Vec<u64>,
     pub systime_reads: u64,
     pub al_status_reads: u64,
+    /// Value of the AL status register at its last read by the master.
+    pub last_al_status_read: u16,
     pub present: bool,
 }
 
@@ -181,6 +183,7 @@ impl Device {
             systime_script: vec![],
             systime_reads: 0,
             al_status_reads: 0,
+            last_al_status_read: 0,
             present: true,
             desc,
         };
@@ -317,9 +320,10 @@ impl Device {
                 if !write && !self.mailbox.read_full {
                     return false;
                 }
-            } else if a + len > e || a < s {
-                return false;
             }
+            // Buffered (process data) sync managers: one access may span several adjacent
+            // buffers of the same direction (one FMMU over contiguous SMs is common practice);
+            // bytes between/around them are plain RAM.
         }
         true
     }
@@ -346,6 +350,9 @@ impl Device {
             self.systime_reads += 1;
         }
         self.refresh_status_regs();
+        if a < REG_AL_STATUS + 2 && a + len > REG_AL_STATUS {
+            self.last_al_status_read = rd16(&self.mem, REG_AL_STATUS);
+        }
         let out = self.mem[a..a + len].to_vec();
         // post-read: reading the last byte of the read mailbox empties it
         for i in 0..16 {
